@@ -10,6 +10,8 @@ Contract classes (from the trait documentation in src/lib.rs and the property st
   occ     P <  COUNT              select-like: strict upper bound by a term not depending on P
 LEN(self) is the summary of the type's own `len()` (so `self.n`, `self.len()`, `self.bv.len()` agree).
 """
+import collections
+
 from .core import *
 from .report import Inst
 
@@ -726,4 +728,49 @@ def rule_UNS(FA):
             else:
                 out.append(Inst('R-UNS', key, 'violation', f['span'],
                                 '`%s` skips validation but is callable from safe code (not `unsafe fn`)' % f['name'], props))
+    return out
+
+
+# ---------------------------------------------------------------- R-CMP
+
+CMP_PROPS = [('qvector::rs_qvector', ['C05', 'C01', 'C04']), ('bitvector::rs_narrow', ['C06']), ('bitvector::rs_wide', ['C06', 'C03']),
+             ('darray', ['C07']), ('bitvector', ['C08']), ('quadwt::huffqwt', ['C02']), ('quadwt', ['C01']), ('binwt', ['C03']), ('qvector', ['C13'])]
+
+
+def rule_CMP(FA):
+    """Contradiction rule (Engler): within one function the same two quantities are never compared with two
+    different strictnesses (`a < b` in one loop, `a <= b` in its sibling loop).  A two-phase search (coarse
+    steps, then linear) must test one predicate; two beliefs about one boundary mean one of them is wrong."""
+    out = []
+    for f in FA.lib_fns():
+        path = fn_key(f)
+        props = next((p for pre, p in CMP_PROPS if path.startswith(pre)), None)
+        if props is None:
+            continue
+        for spec in FA.specs(f):
+            F = FA.fn(f, spec)
+            F.dom()
+            seen = collections.defaultdict(list)
+            for bi, b in enumerate(F.blocks):
+                if bi not in F.reach:
+                    continue
+                t = b['t']
+                if t['k'] != 'switch' or bi in F.const_switch or bi in F.debug_switches():
+                    continue
+                d = norm(F.operand_term(t['d']))
+                for a in term_atoms(d):
+                    if a[0] in ('<', '<='):
+                        # orientation-independent: record as (x, y, op) with x<y / x<=y; the flipped pair y>x is the same fact
+                        seen[(a[1], a[2])].append((a[0], t.get('line', '')))
+            for (x, y), ops in seen.items():
+                if len(ops) < 2:
+                    continue
+                kinds = {o for o, _ in ops}
+                key = 'R-CMP|%s%s|%s ~ %s' % (path, spec_key(spec), show(x)[:40], show(y)[:40])
+                if len(kinds) > 1:
+                    out.append(Inst('R-CMP', key, 'violation', ops[0][1],
+                                    '`%s` and `%s` are compared %d times in this function, with `<` and with `<=`: the phases of the search disagree about the boundary' % (
+                                        show(x)[:60], show(y)[:60], len(ops)), props, sample={'comparisons': ops}))
+                else:
+                    out.append(Inst('R-CMP', key, 'ok', ops[0][1], 'compared %d times, always `%s`' % (len(ops), ops[0][0]), props))
     return out
